@@ -1,4 +1,393 @@
-import Model.KCenters
+import Proofs.C02Witness
+
+/-!
+# C02 — k-centers is farthest-first, never widens the radius, 2-approximate, stops on cue
+
+All theorems are about `Ens.KC.kcenters` (`Model/KCenters.lean`), the executable model of
+`enspara.cluster.kcenters.kcenters` that the correspondence run compares with the real function.
+`D f c` is the metric table, `n` the number of frames, `cfg` the keyword arguments
+(`n_clusters`, `dist_cutoff`, `init_centers`, `random_first_center`, `use_triangle_inequality`);
+`res.trace` lists, per executed loop iteration, (chosen frame, covering radius before it);
+`res.radius` is the final covering radius; `none : ERat` is `inf`.
+-/
 namespace C02
-theorem placeholder : True := trivial
+open Ens.KC
+
+/-- frames appended by the loop, in order -/
+def chosen (res : Result) : List Nat := res.trace.map Prod.fst
+
+/-- covering radius before each iteration, then the final one -/
+def radii (res : Result) : List ERat := res.trace.map Prod.snd ++ [res.radius]
+
+/-! Non-vacuity witnesses use `line5` (`Proofs/C02Witness.lean`): five frames on a line at positions
+0, 4, 1, 3, 2 with `D f c = |pos f - pos c|`; `view` is the observable part of a result. -/
+
+/-! ## the None / inf / 0 normalisation of the stopping criteria (kcenters.py L177-189) -/
+
+theorem criteria_normalisation :
+    (∀ k q, normalise (.fin k) (.val q) = .ok (some k, some q)) ∧
+    (∀ k, normalise (.fin k) .none = .ok (some k, some 0)) ∧
+    (∀ k, normalise (.fin k) .inf = .ok (some k, none)) ∧
+    (∀ q, normalise .none (.val q) = .ok (none, some q)) ∧
+    (∀ q, q ≠ 0 → normalise .npInf (.val q) = .ok (none, some q)) ∧
+    normalise .npInf .none = .ok (none, some 0) ∧
+    (∀ q, normalise .floatInf (.val q) = .ok (none, some q)) ∧
+    normalise .none .none = .error .improperlyConfigured ∧
+    normalise .npInf (.val 0) = .error .improperlyConfigured := by
+  refine ⟨?_, ?_, ?_, ?_, ?_, ?_, ?_, ?_, ?_⟩ <;> intros <;> simp_all [normalise, NCl.eff, Cut.eff]
+
+/-! ## first center -/
+
+/-- Cold start: the centers are exactly the frames chosen by the loop and the first one is frame 0.
+Warm start: the supplied centers stay, in order, at the front of `centers`; `center_indices` starts
+with what `find_cluster_centers` returned for them, which is the supplied frames themselves when
+these are distinct frames of the data and distinct frames are at positive distance. -/
+theorem kcenters_first_center (D : Table) (n : Nat) (cfg : Cfg) (res : Result)
+    (h : kcenters D n cfg = .ok res) :
+    (cfg.init = none →
+      res.st.ctrInds = chosen res ∧ res.st.centers = chosen res ∧
+      (∀ c, res.st.ctrInds.head? = some c → c = 0)) ∧
+    (∀ cs, cfg.init = some cs →
+      res.st.centers = cs ++ chosen res ∧
+      res.st.ctrInds = (initState D n (some cs)).ctrInds ++ chosen res ∧
+      (GoodInit D n cs → res.st.ctrInds = cs ++ chosen res)) := by
+  obtain ⟨nc, cut, _, _, hn, hl, _⟩ := kcenters_ok h
+  obtain ⟨l1, l2⟩ := loop_lists _ _ _ _ hl
+  obtain ⟨_, _, lsp⟩ := loop_spec _ _ _ _ hl
+  constructor
+  · intro hcold
+    rw [hcold] at l1 l2 lsp
+    refine ⟨by simpa [chosen, initState, St.cold] using l1,
+      by simpa [chosen, initState, St.cold] using l2, ?_⟩
+    intro c hc
+    have l1' : res.st.ctrInds = res.trace.map Prod.fst := by
+      simpa [initState, St.cold] using l1
+    rw [l1'] at hc
+    cases htr : res.trace with
+    | nil => rw [htr] at hc; simp at hc
+    | cons e tr =>
+      rw [htr] at hc
+      simp only [List.map_cons, List.head?_cons, Option.some.injEq] at hc
+      obtain ⟨sj, hs, _, he⟩ := lsp 0 (by rw [htr]; simp)
+      simp only [iterN] at hs
+      injection hs with hs
+      subst hs
+      simp only [htr, List.getElem_cons_zero] at he
+      rw [← hc, he]
+      exact argmaxE_none n
+  · intro cs hwarm
+    rw [hwarm] at l1 l2
+    refine ⟨by simpa [chosen, initState] using l2, by simpa [chosen] using l1, ?_⟩
+    intro g
+    rw [l1, GoodInit_ctrInds g]; rfl
+
+example : view 5 (kcenters line5 5 { nClusters := .fin 3 }) =
+    some ⟨[0, 1, 4], [0, 1, 4], [0, 1, 0, 1, 2], [some 0, some 0, some 1, some 1, some 0],
+      [(0, none), (1, some 4), (4, some 2)], some 1⟩ := by decide
+example : GoodInit line5 5 [2, 1] :=
+  ⟨by decide, by decide, by decide, by decide,
+   fun i j hi hj => (by decide : ∀ i, i < 5 → ∀ j, j < 5 → i ≠ j → 0 < line5 i j) i hi j hj⟩
+example : view 5 (kcenters line5 5 { nClusters := .fin 3, init := some [2, 1] }) =
+    some ⟨[2, 1, 0], [2, 1, 0], [2, 1, 0, 1, 0], [some 0, some 0, some 0, some 1, some 1],
+      [(0, some 1)], some 1⟩ := by decide
+
+/-! ## greedy rule -/
+
+/-- Before the `j`-th executed iteration the state is `sj` (reached by `j` unguarded iterations from
+the initial state); the frame chosen then becomes center number `|initial centers| + j`, it is a
+frame, the recorded radius is its distance, every frame's distance is `≤` it and every earlier
+frame's distance is strictly smaller (first index attaining the maximum); without the shortcut
+`sj.dist` is the running minimum of the distances to `sj.centers`. -/
+theorem kcenters_greedy (D : Table) (n : Nat) (cfg : Cfg) (res : Result)
+    (h : kcenters D n cfg = .ok res) (j : Nat) (hj : j < res.trace.length) :
+    ∃ sj : St, iterN D n cfg.tri j (initState D n cfg.init) = .ok sj ∧
+      sj.ctrInds.length = (initState D n cfg.init).ctrInds.length + j ∧
+      res.st.ctrInds[sj.ctrInds.length]? = some (res.trace[j]).1 ∧
+      (res.trace[j]).1 < n ∧
+      (res.trace[j]).2 = sj.dist (res.trace[j]).1 ∧
+      (∀ f, f < n → leE (sj.dist f) (sj.dist (res.trace[j]).1) = true) ∧
+      (∀ f, f < (res.trace[j]).1 → ltE (sj.dist f) (sj.dist (res.trace[j]).1) = true) ∧
+      (cfg.tri = false → RMin D sj.dist sj.centers) := by
+  obtain ⟨nc, cut, _, _, hn, hl, _⟩ := kcenters_ok h
+  obtain ⟨l1, _⟩ := loop_lists _ _ _ _ hl
+  obtain ⟨_, _, lsp⟩ := loop_spec _ _ _ _ hl
+  obtain ⟨sj, hs, _, he⟩ := lsp j hj
+  obtain ⟨hlen, _, _, _⟩ := iterN_facts _ _ _ hs
+  refine ⟨sj, hs, hlen, ?_, ?_, ?_, ?_, ?_, ?_⟩
+  · rw [l1, hlen, List.getElem?_append_right (by omega)]
+    simp [hj]
+  · rw [he]; exact argmaxE_lt hn _
+  · rw [he]; rfl
+  · intro f hf; rw [he, leE_iff]; exact argmaxE_max n _ f hf
+  · intro f hf; rw [he] at hf ⊢; rw [ltE_iff]; exact argmaxE_first n _ f hf
+  · intro hp; rw [hp] at hs; exact RMin_iterN _ _ _ hs
+
+/-! ## radius never grows -/
+
+theorem radius_antitone (D : Table) (n : Nat) (cfg : Cfg) (res : Result)
+    (h : kcenters D n cfg = .ok res) :
+    (radii res).Pairwise (fun earlier later => leE later earlier = true) := by
+  obtain ⟨nc, cut, _, _, hn, hl, hr⟩ := kcenters_ok h
+  obtain ⟨_, _, hp⟩ := loop_radii hn _ _ _ _ hl
+  unfold radii
+  rw [hr]
+  exact hp.imp (fun {a b} hab => (leE_iff b a).mpr hab)
+
+example : radii { st := St.cold, trace := [(0, none), (1, some 4), (4, some 2)], radius := some 1 } =
+    [none, some 4, some 2, some 1] := rfl
+
+/-! ## Gonzalez' 2-approximation -/
+
+/-- `S` covers all frames within `R` -/
+def Covers (D : Table) (n : Nat) (S : List Nat) (R : Rat) : Prop :=
+  ∀ f, f < n → ∃ x ∈ S, D f x ≤ R
+
+/-- For a symmetric table with the triangle inequality (on the frames), a cold start, any stopping
+criteria, with or without the shortcut: if the call returns `m ≥ 1` centers then its covering radius
+is finite and at most twice the covering radius of **every** set `S` of at most `m` frames
+(`R` ranges over all radii within which `S` covers, so in particular the least one). -/
+theorem gonzalez_two_approx (D : Table) (n : Nat) (cfg : Cfg) (res : Result)
+    (symm : ∀ x y, x < n → y < n → D x y = D y x)
+    (tri : ∀ x y z, x < n → y < n → z < n → D x z ≤ D x y + D y z)
+    (hcold : cfg.init = none) (h : kcenters D n cfg = .ok res)
+    (S : List Nat) (hSne : S ≠ []) (hS : ∀ x ∈ S, x < n) (hcard : S.length ≤ res.st.ctrInds.length)
+    (R : Rat) (hR : Covers D n S R) :
+    ∃ r : Rat, res.radius = some r ∧ r ≤ 2 * R := by
+  have hpos : 0 < S.length := List.length_pos_of_ne_nil hSne
+  -- reduce to the plain run
+  have key : ∀ (cfg' : Cfg) (res' : Result), cfg'.init = none → cfg'.tri = false →
+      kcenters D n cfg' = .ok res' → S.length ≤ res'.st.ctrInds.length →
+      ∃ r : Rat, res'.radius = some r ∧ r ≤ 2 * R := by
+    intro cfg' res' hc hp hk hcard'
+    obtain ⟨hn, fa, hr⟩ := plain_cold_FarApart hc hp hk
+    rw [hr]
+    have hne : res'.st.centers ≠ [] := by
+      intro he
+      have : res'.st.ctrInds.length = 0 := by rw [fa.same, he]; rfl
+      omega
+    exact FarApart_two_approx hn fa symm tri S hS (by rw [← fa.same]; exact hcard') R hR hne
+  cases htri : cfg.tri with
+  | false => exact key cfg res hcold htri h hcard
+  | true =>
+    have hag := kcenters_tri_agree D n cfg symm tri (Or.inl hcold)
+    have e : ({ cfg with tri := true } : Cfg) = cfg := by cases cfg; simp_all
+    rw [e, h] at hag
+    cases hplain : kcenters D n { cfg with tri := false } with
+    | error e' => rw [hplain] at hag; exact hag.elim
+    | ok r1 =>
+      rw [hplain] at hag
+      obtain ⟨hst, _, hrad⟩ := hag
+      rw [← hrad]
+      exact key { cfg with tri := false } r1 hcold rfl hplain (by rw [hst.1]; exact hcard)
+
+example : (∀ x y, x < 5 → y < 5 → line5 x y = line5 y x) ∧
+    (∀ x y z, x < 5 → y < 5 → z < 5 → line5 x z ≤ line5 x y + line5 y z) ∧
+    Covers line5 5 [4, 0] 2 := by
+  refine ⟨fun x y _ _ => lineTable_symm _ x y, fun x y z _ _ _ => lineTable_tri _ x y z, ?_⟩
+  unfold Covers; decide
+
+/-! ## stops exactly on cue -/
+
+/-- With `(nc, cut)` the normalised criteria (`none` = no bound / `inf`): the number of centers is
+the initial number plus the number of iterations; before every executed iteration the count was
+still below `n_clusters` **and** the radius still above the cutoff (not late); at the end the count
+has reached `n_clusters` or the radius is `≤` the cutoff (not early); the count is never overshot
+once an iteration ran; and no iteration runs exactly when the guard already fails on the initial
+state, in which case that state is returned unchanged (the zero-iteration case). -/
+theorem kcenters_stops_exactly (D : Table) (n : Nat) (cfg : Cfg) (res : Result)
+    (h : kcenters D n cfg = .ok res) :
+    ∃ (nc : Option Int) (cut : ERat), normalise cfg.nClusters cfg.cutoff = .ok (nc, cut) ∧
+      res.st.ctrInds.length = (initState D n cfg.init).ctrInds.length + res.trace.length ∧
+      (∀ j (hj : j < res.trace.length),
+        (∀ k, nc = some k → (((initState D n cfg.init).ctrInds.length + j : Nat) : Int) < k) ∧
+        ltE cut (res.trace[j]).2 = true) ∧
+      ((∃ k, nc = some k ∧ k ≤ (res.st.ctrInds.length : Int)) ∨ leE res.radius cut = true) ∧
+      (∀ k, nc = some k → res.trace ≠ [] → (res.st.ctrInds.length : Int) ≤ k) ∧
+      (res.trace = [] ↔ guard nc cut n (initState D n cfg.init) = false) ∧
+      (res.trace = [] → res.st = initState D n cfg.init) := by
+  obtain ⟨nc, cut, hnorm, _, hn, hl, hr⟩ := kcenters_ok h
+  obtain ⟨hfin, hgf, lsp⟩ := loop_spec _ _ _ _ hl
+  obtain ⟨hlen, _, _, _⟩ := iterN_facts _ _ _ hfin
+  obtain ⟨hnil1, hnil2⟩ := loop_nil _ _ _ _ hl
+  have hlate : ∀ j (hj : j < res.trace.length),
+      (∀ k, nc = some k → (((initState D n cfg.init).ctrInds.length + j : Nat) : Int) < k) ∧
+      ltE cut (res.trace[j]).2 = true := by
+    intro j hj
+    obtain ⟨sj, hs, hg, he⟩ := lsp j hj
+    obtain ⟨hl', _, _, _⟩ := iterN_facts _ _ _ hs
+    rw [guard_iff] at hg
+    refine ⟨fun k hk => by rw [← hl']; exact hg.1 k hk, ?_⟩
+    rw [he, ltE_iff]; exact hg.2
+  refine ⟨nc, cut, hnorm, hlen, hlate, ?_, ?_, hnil1, hnil2⟩
+  · rw [guard_false_iff] at hgf
+    rcases hgf with hgf | hgf
+    · exact Or.inl hgf
+    · right; rw [hr, leE_iff]; exact hgf
+  · intro k hk hne
+    have hpos : 0 < res.trace.length := List.length_pos_of_ne_nil hne
+    have := (hlate (res.trace.length - 1) (by omega)).1 k hk
+    rw [hlen]
+    push_cast at this ⊢
+    omega
+
+example : view 5 (kcenters line5 5 { nClusters := .fin 4, cutoff := .val 1 }) =
+    some ⟨[0, 1, 4], [0, 1, 4], [0, 1, 0, 1, 2], [some 0, some 0, some 1, some 1, some 0],
+      [(0, none), (1, some 4), (4, some 2)], some 1⟩ := by decide
+/-- zero iterations: `n_clusters = 0` returns the untouched cold state -/
+example : view 3 (kcenters line5 3 { nClusters := .fin 0 }) =
+    some ⟨[], [], [-1, -1, -1], [none, none, none], [], none⟩ := by decide
+
+/-- The usual reading "`kcenters` with `n_clusters = k` is within twice the best `k` centers": if the
+normalised criteria are `(k, q)` then for every set `S` of at most `k` frames the final radius is
+at most `max (2·R) q` (with `n_clusters` only, `q = 0`): the run either reached `k` centers or
+stopped because the radius was already `≤ q`. -/
+theorem gonzalez_two_approx_n_clusters (D : Table) (n : Nat) (cfg : Cfg) (res : Result)
+    (symm : ∀ x y, x < n → y < n → D x y = D y x)
+    (tri : ∀ x y z, x < n → y < n → z < n → D x z ≤ D x y + D y z)
+    (hcold : cfg.init = none) (h : kcenters D n cfg = .ok res)
+    (k : Int) (q : Rat) (hnorm : normalise cfg.nClusters cfg.cutoff = .ok (some k, some q))
+    (S : List Nat) (hSne : S ≠ []) (hS : ∀ x ∈ S, x < n) (hcard : (S.length : Int) ≤ k)
+    (R : Rat) (hR : Covers D n S R) :
+    ∃ r : Rat, res.radius = some r ∧ r ≤ max (2 * R) q := by
+  obtain ⟨nc, cut, hnorm', _, _, hend, _, _, _⟩ := kcenters_stops_exactly D n cfg res h
+  rw [hnorm] at hnorm'
+  injection hnorm' with hnorm'
+  injection hnorm' with e1 e2
+  subst e1; subst e2
+  rcases hend with ⟨k', hk', hle⟩ | hle
+  · injection hk' with hk'
+    subst hk'
+    obtain ⟨r, hr, hle'⟩ := gonzalez_two_approx D n cfg res symm tri hcold h S hSne hS
+      (by exact_mod_cast le_trans hcard hle) R hR
+    exact ⟨r, hr, le_trans hle' (le_max_left _ _)⟩
+  · rw [leE_iff] at hle
+    cases hrad : res.radius with
+    | none => rw [hrad] at hle; simp at hle
+    | some r =>
+      rw [hrad] at hle
+      simp only [toWT_some, WithTop.coe_le_coe] at hle
+      exact ⟨r, rfl, le_trans hle (le_max_right _ _)⟩
+
+/-! ## termination -/
+
+/-- When `n_clusters` is finite, or (plain algorithm) the cutoff is finite and every frame is
+within the cutoff of itself (`D c c ≤ cutoff`, e.g. `D c c = 0 ≤ cutoff`), the model's default fuel
+is never exhausted and any larger fuel gives the same answer: the `while` loop terminates, after at
+most `n_clusters - |initial centers|` resp. `n` iterations. -/
+theorem kcenters_terminates (D : Table) (n : Nat) (cfg : Cfg) (nc : Option Int) (cut : ERat)
+    (hnorm : normalise cfg.nClusters cfg.cutoff = .ok (nc, cut))
+    (hyp : (∃ k, nc = some k) ∨
+      ((cfg.tri = false ∨
+          ((∀ x y, x < n → y < n → D x y = D y x) ∧
+           (∀ x y z, x < n → y < n → z < n → D x z ≤ D x y + D y z) ∧
+           (cfg.init = none ∨ ∃ cs, cfg.init = some cs ∧ GoodInit D n cs))) ∧
+        ∃ q, cut = some q ∧ ∀ c, c < n → D c c ≤ q)) :
+    kcenters D n cfg ≠ .error .outOfFuel ∧
+    ∀ extra, kcentersFuel D n cfg (some (fuelFor n nc (initState D n cfg.init) + extra)) =
+      kcenters D n cfg := by
+  unfold kcenters kcentersFuel
+  rw [hnorm]
+  dsimp only
+  by_cases hrf : cfg.randomFirst = true
+  · simp [hrf]
+  · simp only [hrf, Bool.false_eq_true, if_false]
+    by_cases hn0 : n = 0
+    · simp [hn0]
+    · simp only [hn0, if_false, Option.getD_none, Option.getD_some]
+      have hn : 0 < n := Nat.pos_of_ne_zero hn0
+      have hno : loop D n cfg.tri nc cut (fuelFor n nc (initState D n cfg.init))
+          (initState D n cfg.init) ≠ .error .outOfFuel := by
+        cases nc with
+        | some k => exact loop_no_oof_fin k _ _ (le_refl _)
+        | none =>
+          rcases hyp with ⟨k, hk⟩ | ⟨hp, q, hq, hdiag⟩
+          · cases hk
+          · subst hq
+            have hplain := loop_no_oof_cut (nc := none) hn hdiag n (initState D n cfg.init)
+              (farCount_le _ _ _)
+            cases htri : cfg.tri with
+            | false => exact hplain
+            | true =>
+              rcases hp with hp | ⟨symm, tri, hinit⟩
+              · rw [htri] at hp; cases hp
+              · have hinv : ColdLike n (initState D n cfg.init) ∨ Lab D n (initState D n cfg.init) := by
+                  rcases hinit with h | ⟨cs, h, g⟩
+                  · left; rw [h]; exact ColdLike_cold n
+                  · right; rw [h]; exact GoodInit_Lab g
+                have hag := loop_agree hn symm tri none (some q) n (initState D n cfg.init)
+                  (initState D n cfg.init) (StAgree.refl _ _) hinv
+                intro hc
+                rw [show fuelFor n none (initState D n cfg.init) = n from rfl] at hc
+                rw [hc] at hag
+                revert hag
+                cases hl : loop D n false none (some q) n (initState D n cfg.init) with
+                | error e =>
+                  intro hag
+                  have : e = Err.outOfFuel := hag
+                  subst this
+                  exact hplain hl
+                | ok r => obtain ⟨a, b⟩ := r; exact id
+      constructor
+      · intro hc
+        revert hc
+        cases hl : loop D n cfg.tri nc cut (fuelFor n nc (initState D n cfg.init))
+            (initState D n cfg.init) with
+        | error e =>
+          dsimp only
+          intro hc; injection hc with hc; subst hc; exact hno hl
+        | ok r => obtain ⟨a, b⟩ := r; simp
+      · intro extra
+        rw [loop_fuel_add _ _ hno extra]
+
+/-! ## the triangle-inequality shortcut changes nothing -/
+
+/-- The property as stated: for every table that is symmetric with the triangle inequality on all
+ids `< m` in play (the `n ≤ m` frames and the supplied initial centers), whatever the initial
+centers, both settings of `use_triangle_inequality` give the same result.  **False** for the code
+as it is (`triangle_shortcut_same_counterexample`): `kcenters.py` L288 measures the new center
+against `traj[center_inds]`, the frames *nearest to* the supplied centers, not against the supplied
+centers themselves, so a supplied center that is not a frame of the data breaks the pruning. -/
+def C02_triangle_shortcut_same_full : Prop :=
+  ∀ (D : Table) (n m : Nat) (cfg : Cfg), n ≤ m →
+    (∀ x y, x < m → y < m → D x y = D y x) →
+    (∀ x y z, x < m → y < m → z < m → D x z ≤ D x y + D y z) →
+    (∀ cs, cfg.init = some cs → ∀ c ∈ cs, c < m) →
+    ResAgree n (kcenters D n { cfg with tri := false }) (kcenters D n { cfg with tri := true })
+
+/-- What holds: for a symmetric table with the triangle inequality on the frames, a cold start or a
+warm start from distinct data frames at positive mutual distance (`GoodInit`):
+`use_triangle_inequality=True` and `False` return the same center indices, centers, trace and
+radius, and the same label and distance for every frame (or raise the same error).
+Missing w.r.t. the full statement: initial centers that are not frames of the data (false, see the
+counterexample) and initial centers that coincide (`D = 0`) or repeat. -/
+theorem triangle_shortcut_same_partial (D : Table) (n : Nat) (cfg : Cfg)
+    (symm : ∀ x y, x < n → y < n → D x y = D y x)
+    (tri : ∀ x y z, x < n → y < n → z < n → D x z ≤ D x y + D y z)
+    (hinit : cfg.init = none ∨ ∃ cs, cfg.init = some cs ∧ GoodInit D n cs) :
+    ResAgree n (kcenters D n { cfg with tri := false }) (kcenters D n { cfg with tri := true }) :=
+  kcenters_tri_agree D n cfg symm tri hinit
+
+example : view 5 (kcenters line5 5 { nClusters := .fin 4, tri := true }) =
+    view 5 (kcenters line5 5 { nClusters := .fin 4, tri := false }) := by decide +kernel
+example : ResAgree 5 (kcenters line5 5 { nClusters := .fin 4, tri := false })
+    (kcenters line5 5 { nClusters := .fin 4, tri := true }) :=
+  triangle_shortcut_same_partial line5 5 { nClusters := .fin 4 }
+    (fun x y _ _ => lineTable_symm _ x y) (fun x y z _ _ _ => lineTable_tri _ x y z) (Or.inl rfl)
+
+/-- Witness: points on a line at 0, 1, 3, 2; the data are frames 0, 1, 2 and the supplied initial
+center is point 3 (at 2, not in the data); `n_clusters = 4`.  Plain: every frame ends at distance 0.
+Shortcut: frame 2 becomes a center but keeps distance 1 to the supplied center. -/
+theorem triangle_shortcut_same_counterexample : ¬ C02_triangle_shortcut_same_full := by
+  intro h
+  have h1 := h lineOff 3 4 { nClusters := .fin 4, init := some [3] } (by decide)
+    (fun x y _ _ => lineTable_symm _ x y) (fun x y z _ _ _ => lineTable_tri _ x y z)
+    (by intro cs hcs c hc; injection hcs with hcs; subst hcs; simp at hc; omega)
+  have h2 := ResAgree_view h1
+  revert h2
+  decide +kernel
+
+example : view 3 (kcenters lineOff 3 { nClusters := .fin 4, init := some [3], tri := true }) =
+    some ⟨[1, 0, 1, 2], [3, 0, 1, 2], [1, 2, 0], [some 0, some 0, some 1],
+      [(0, some 2), (1, some 1), (2, some 1)], some 1⟩ := by decide +kernel
+
 end C02
